@@ -17,6 +17,14 @@ type c10Shape struct {
 	sub   bool   // host is a sub-process
 	kinds []bool // per boundary event: interrupting?
 	evs   []int  // per boundary event: the signal it listens for
+	two   bool   // a parallel fork sends two tokens into the host at once
+}
+
+func (sh c10Shape) tokens() int {
+	if sh.two {
+		return 2
+	}
+	return 1
 }
 
 func (sh c10Shape) prog() *Prog {
@@ -37,7 +45,14 @@ func (sh c10Shape) prog() *Prog {
 	p.Node("task", "N")
 	p.Node("end", "end")
 	p.Flow("start", "P", "")
-	p.Flow("P", "H", "")
+	if sh.two {
+		p.Node("par", "F")
+		p.Flow("P", "F", "")
+		p.Flow("F", "H", "")
+		p.Flow("F", "H", "")
+	} else {
+		p.Flow("P", "H", "")
+	}
 	p.Flow("H", "N", "")
 	p.Flow("N", "end", "")
 	for i, intr := range sh.kinds {
@@ -64,6 +79,7 @@ type c10Obs struct {
 	exc      []int // requests of X<i>
 	complete bool
 	trace    []int // per op: 0 skipped / 1 applied (for p and a), events always applied
+	sweep    []int // model operations performed by the final sweep: 0 = a token enters, 1 = a host request answered
 	raced    bool
 	problem  string
 	log      []Ev
@@ -104,7 +120,7 @@ func c10Run(sh c10Shape, ops []string) (o c10Obs) {
 				continue
 			}
 			in.Answer("P", tmoStep)
-			if !in.WaitUntil(tmoStep, func(l []Ev) bool { return countEv(l, "task", host) > 0 }) {
+			if !in.WaitUntil(tmoStep, func(l []Ev) bool { return countEv(l, "task", host) >= sh.tokens() }) {
 				o.problem = "host task never requested"
 				o.log = in.Log()
 				return
@@ -118,7 +134,7 @@ func c10Run(sh c10Shape, ops []string) (o c10Obs) {
 					return
 				}
 			}
-			in.WaitUntil(tmoStep, func(l []Ev) bool { return countEv(l, "boundary", "H") > 0 })
+			in.WaitUntil(tmoStep, func(l []Ev) bool { return countEv(l, "boundary", "H") >= sh.tokens() })
 			phase = "active"
 			o.trace = append(o.trace, 1)
 		case op == "a":
@@ -131,7 +147,9 @@ func c10Run(sh c10Shape, ops []string) (o c10Obs) {
 			// the normal flow continues unless the host was interrupted before; wait briefly either way
 			in.WaitUntil(40*time.Millisecond, func(l []Ev) bool { return countEv(l, "task", "N") > n0 })
 			settleCounts()
-			phase = "over"
+			if !containsStr(in.PendingNodes(), host) {
+				phase = "over"
+			}
 			o.trace = append(o.trace, 1)
 		case strings.HasPrefix(op, "e"):
 			var k int
@@ -163,7 +181,7 @@ func c10Run(sh c10Shape, ops []string) (o c10Obs) {
 		case strings.HasPrefix(op, "r"):
 			var k int
 			fmt.Sscanf(op[1:], "%d", &k)
-			if phase != "active" || !containsStr(in.PendingNodes(), host) {
+			if phase != "active" || !containsStr(in.PendingNodes(), host) || sh.two {
 				o.trace = append(o.trace, 0)
 				continue
 			}
@@ -192,7 +210,17 @@ func c10Run(sh c10Shape, ops []string) (o c10Obs) {
 			continue
 		}
 		for _, n := range pn {
-			in.Answer(n, time.Second)
+			if in.Answer(n, time.Second) {
+				switch n {
+				case "P":
+					for i := 0; i < sh.tokens(); i++ {
+						o.sweep = append(o.sweep, 0)
+					}
+					in.WaitUntil(tmoStep, func(l []Ev) bool { return countEv(l, "task", host) >= sh.tokens() })
+				case host:
+					o.sweep = append(o.sweep, 1)
+				}
+			}
 		}
 		time.Sleep(2 * time.Millisecond)
 	}
@@ -214,17 +242,17 @@ func containsStr(l []string, s string) bool {
 
 // c10Expect is the direct oracle: the counts BPMN prescribes for the applied history.
 // Returns the admissible outcomes (two when an event raced the answer).
-func c10Expect(sh c10Shape, ops []string, applied []int) (outs [][]int) {
+func c10Expect(sh c10Shape, ops []string, applied []int, sweep []int) (outs [][]int) {
 	type st struct {
-		phase  string
+		inside int
 		normal int
 		exc    []int
 	}
-	states := []st{{"pre", 0, make([]int, len(sh.kinds))}}
+	states := []st{{0, 0, make([]int, len(sh.kinds))}}
 	cp := func(s st) st { s.exc = append([]int{}, s.exc...); return s }
 	event := func(s st, k int) st {
 		s = cp(s)
-		if s.phase != "active" {
+		if s.inside == 0 {
 			return s
 		}
 		hit := false
@@ -236,17 +264,15 @@ func c10Expect(sh c10Shape, ops []string, applied []int) (outs [][]int) {
 			hit = hit || intr
 		}
 		if hit {
-			s.phase = "interrupted"
+			s.inside = 0
 		}
 		return s
 	}
 	answer := func(s st) st {
 		s = cp(s)
-		if s.phase == "active" {
+		if s.inside > 0 {
 			s.normal++
-			s.phase = "over"
-		} else if s.phase == "interrupted" {
-			s.phase = "over"
+			s.inside--
 		}
 		return s
 	}
@@ -257,7 +283,7 @@ func c10Expect(sh c10Shape, ops []string, applied []int) (outs [][]int) {
 			case applied[i] == 0:
 				next = append(next, s)
 			case op == "p":
-				s.phase = "active"
+				s.inside += sh.tokens()
 				next = append(next, s)
 			case op == "a":
 				next = append(next, answer(s))
@@ -274,10 +300,12 @@ func c10Expect(sh c10Shape, ops []string, applied []int) (outs [][]int) {
 		states = next
 	}
 	for _, s := range states {
-		// the final sweep answers a still pending host task: the normal flow continues if it was not interrupted
-		s = answer(s)
-		if s.phase == "pre" {
-			s.normal = 1 // P and then the host are answered by the sweep
+		for _, o := range sweep {
+			if o == 0 {
+				s.inside++
+			} else {
+				s = answer(s)
+			}
 		}
 		outs = append(outs, append([]int{s.normal}, s.exc...))
 	}
@@ -293,12 +321,13 @@ func runC10(env *Env) {
 		nHist = 150
 	}
 	shapes := []c10Shape{
-		{"task/interrupting", false, []bool{true}, []int{0}},
-		{"task/non-interrupting", false, []bool{false}, []int{0}},
-		{"task/interrupting+non-interrupting", false, []bool{true, false}, []int{0, 1}},
-		{"task/two non-interrupting, same event", false, []bool{false, false}, []int{0, 0}},
-		{"sub-process/interrupting", true, []bool{true}, []int{0}},
-		{"sub-process/non-interrupting+interrupting", true, []bool{false, true}, []int{0, 1}},
+		{"task/interrupting", false, []bool{true}, []int{0}, false},
+		{"task/non-interrupting", false, []bool{false}, []int{0}, false},
+		{"task/interrupting+non-interrupting", false, []bool{true, false}, []int{0, 1}, false},
+		{"task/two non-interrupting, same event", false, []bool{false, false}, []int{0, 0}, false},
+		{"sub-process/interrupting", true, []bool{true}, []int{0}, false},
+		{"sub-process/non-interrupting+interrupting", true, []bool{false, true}, []int{0, 1}, false},
+		{"task with two tokens/non-interrupting+interrupting", false, []bool{false, true}, []int{0, 1}, true},
 	}
 	var items []string
 	for _, sh := range shapes {
@@ -338,7 +367,7 @@ func runC10(env *Env) {
 				rep.Violate("C10-stuck", cs, o.problem+"; log: "+logString(o.log))
 				continue
 			}
-			outs := c10Expect(sh, ops, o.trace)
+			outs := c10Expect(sh, ops, o.trace, o.sweep)
 			got := append([]int{o.normal}, o.exc...)
 			ok := false
 			for _, w := range outs {
@@ -374,7 +403,9 @@ func runC10(env *Env) {
 				var k int
 				switch op[0] {
 				case 'p':
-					cops = append(cops, "0")
+					for j := 0; j < sh.tokens(); j++ {
+						cops = append(cops, "0")
+					}
 				case 'a':
 					cops = append(cops, "1")
 				case 'e':
@@ -384,6 +415,9 @@ func runC10(env *Env) {
 					fmt.Sscanf(op[1:], "%d", &k)
 					cops = append(cops, fmt.Sprint(100+k))
 				}
+			}
+			for _, x := range o.sweep {
+				cops = append(cops, fmt.Sprint(x))
 			}
 			items = append(items, fmt.Sprintf("([%s],[%s],%d,%s,%d)", strings.Join(sp, ";"), strings.Join(cops, ";"), o.normal, natList(o.exc), b2i(o.complete)))
 			if nontriv && len(rep.Samples) < 5 {
